@@ -72,6 +72,8 @@ def split_simple(line):
     t = line[4:-1]
     if not (1 <= len(t) <= MAX_URI and set(t) <= URI_STRICT):
         return None
+    if re.search(rb"HTTP/[0-9]+\.[0-9]+$", t):
+        return None      # ends in an HTTP-version token: a (malformed) full request-line, not a simple request
     return t
 
 
@@ -150,11 +152,6 @@ def oracle(case, out):
             return None
         t = split_simple(line)
         if t is not None:
-            if quirk:
-                if accepted_line and got != (b"GET", t, "0.9"):
-                    return ("oracle:http0-version-token-without-delimiter:fields",
-                            "simple request with target %r parsed as %r" % (t, got))
-                return None
             if not accepted_line:
                 return ("oracle:strict-rejects-simple-request", "HTTP/0.9 simple request rejected: " + out[:80])
             if got != (b"GET", t, "0.9"):
